@@ -2,4 +2,5 @@
 # Development aid: run each seeded change's own check (quick tier) against its scratch worktree.
 cd /verif
 run() { wt=$1; shift; for c in "$@"; do echo "##### $(basename $wt) $c"; VERIF_REPO=$wt VERIF_EVIDENCE_DIR=/tmp/seed-evidence timeout 2400 ./check $c --tier quick 2>&1 | grep -E "VIOLATION|HARNESS|^C[0-9]+ \[" | cut -c1-260; echo "exit=${PIPESTATUS[0]}"; done; }
-for pair in "$@"; do run /tmp/seed-${pair%%:*}-a ${pair##*:}; done
+# arguments: <seed id>:<check>, e.g. c02-a:C02
+for pair in "$@"; do run /tmp/seed-${pair%%:*} ${pair##*:}; done
